@@ -29,6 +29,7 @@ def handle (line : String) : String :=
   | "blockloop" :: rest => Drv.blockLoopLine rest
   | "miniblock" :: rest => Drv.miniLine rest
   | "qblock" :: rest => Drv.qLine rest
+  | "lblock" :: rest => Drv.lLine rest
   | "unescape" :: rest => Drv.unescapeLine rest
   | "inline" :: rest => Drv.inlineLine rest
   | "textjoin" :: rest => Drv.textJoinLine rest
